@@ -157,3 +157,24 @@ enum TiedSkipsWithPriority {
 enum SkipsResolvedByPriority {
     #[regex("[a-z]+")] Word,
 }
+
+// explicit priorities on byte-string tokens
+#[derive(Logos)]
+enum ByteTokenTiedByPriority {
+    #[token(b"if", priority = 3)] If,            // explicit 3 (not 2 x 2)
+    #[regex("[a-z]+", priority = 3)] Ident,      // ties with If on "if"
+    #[token(" ")] Sp,
+}
+
+#[derive(Logos)]
+#[logos(utf8 = false)]
+enum BinaryTokenTiedByPriority {
+    #[token(b"\xFFx", priority = 7)] Marker,
+    #[regex(b"(?-u:[\x80-\xFF])[a-z]", priority = 7)] HighThenLetter,
+}
+
+#[derive(Logos)]
+enum ByteTokenLoweredPriority {
+    #[token(b"if", priority = 1)] If,            // explicit 1: the regex (2) wins, no tie
+    #[regex("[a-z]+")] Ident,
+}
